@@ -6,6 +6,7 @@ package main
 import (
 	"context"
 	"fmt"
+	"io"
 	"net/http"
 	"net/http/httptest"
 	"net/url"
@@ -118,6 +119,41 @@ func runServer(c serverCase) (httpStatus int, hdr http.Header, body []byte) {
 	return rec.Code, rec.Header(), rec.Body.Bytes()
 }
 
+// errBody fails after delivering its bytes, like a connection that breaks between the
+// headers and the end of the body.
+type errBody struct{ b []byte }
+
+func (e *errBody) Read(p []byte) (int, error) {
+	if len(e.b) == 0 {
+		return 0, io.ErrUnexpectedEOF
+	}
+	n := copy(p, e.b)
+	e.b = e.b[n:]
+	return n, nil
+}
+func (e *errBody) Close() error { return nil }
+
+// clientSeesBroken: the reply's status line and headers arrive intact, the body is cut short.
+func clientSeesBroken(code int, hdr http.Header, body []byte) error {
+	u, _ := url.Parse("http://example.test/")
+	rt := common.RT(func(r *http.Request) (*http.Response, error) {
+		if r.Body != nil {
+			io.Copy(io.Discard, r.Body)
+			r.Body.Close()
+		}
+		h := http.Header{}
+		for k, v := range hdr {
+			h[k] = append([]string(nil), v...)
+		}
+		half := body[:len(body)/2]
+		return &http.Response{StatusCode: code, Status: http.StatusText(code), Proto: "HTTP/1.1", ProtoMajor: 1, ProtoMinor: 1,
+			Header: h, Body: &errBody{b: half}, Request: r, ContentLength: int64(len(body) + 64)}, nil
+	})
+	ch := &httpgrpc.Channel{Transport: rt, BaseURL: u}
+	var out wrapperspb.StringValue
+	return ch.Invoke(context.Background(), "/t.S/M", wrapperspb.String("req"), &out)
+}
+
 func clientSees(code int, hdr http.Header, body []byte) error {
 	u, _ := url.Parse("http://example.test/")
 	ch := &httpgrpc.Channel{Transport: common.CannedRT(code, hdr, body), BaseURL: u}
@@ -161,6 +197,11 @@ func checkServer(c serverCase) (string, string) {
 	err := clientSees(hs, hdr, body)
 	if got := status.Code(err); got != wantCode || err == nil {
 		return "client-code", fmt.Sprintf("%s client=%v(%d) want %d", obs, got, uint32(got), uint32(wantCode))
+	}
+	// the status travels in the headers: a body cut short afterwards must not replace the handler's code
+	err = clientSeesBroken(hs, hdr, body)
+	if got := status.Code(err); got != wantCode || err == nil {
+		return "client-code-with-broken-body", fmt.Sprintf("%s client=%v(%d) want %d", obs, got, uint32(got), uint32(wantCode))
 	}
 	return "", obs
 }
